@@ -188,7 +188,7 @@ Lemma dec_normalize_rc_ok : forall fuel st bs st' bs',
 Proof.
   induction fuel as [|fu IH]; intros st bs st' bs' HR HC HP Hp H; cbn [dec_normalize_rc] in H.
   - inversion H; subst. rewrite p256_0 in Hp. unfold rc_ok. split; [lia|exact HP].
-  - unfold TOP in H. destruct (d_range st <? 16777216) eqn:E.
+  - destruct (d_range st <? TOP) eqn:E; unfold TOP in E.
     + destruct bs as [|b r]; [discriminate|].
       pose proof (Forall_inv HP) as Hb. cbv beta in Hb.
       assert (Hsm : (d_range st * 256) mod TWO32 = d_range st * 256)
